@@ -19,6 +19,9 @@ def random_keys(rng, kind, cap, depth, n):
     lines = ["R %s %d %d" % (kind, cap, depth)]
     for _ in range(n):
         r = rng.random()
+        if rng.random() < 0.012:      # the same terminal object initialised again with another capacity / history depth (smaller as well as larger)
+            lines.append("Reinit %d %d" % (rng.choice([2, 3, 4, 8, 16, cap]), rng.choice([1, 1, 2, 3, 5, depth])))
+            continue
         if r < 0.35:
             seq = [rng.choice([97, 98, 99, 32, 91, 65, 51, 126, 127, 255])]
         elif r < 0.45:
@@ -151,6 +154,7 @@ def replay(ctx, path):
         n = e["e"]
         if n == "Reset": lines.append("R %s %d %d" % (e["kind"], e["cap"], e["depth"]))
         elif n == "Key": lines.append("Key %d" % e["k"])
+        elif n == "Reinit": lines.append("Reinit %d %d" % (e["cap"], e["depth"]))
         elif n == "SlPut": lines.append("SlPut %d" % e["c"])
         elif n == "SlNew": lines.append("SlNew %s" % (",".join(map(str, e["s"])) or "-"))
         elif n in ("SlBs", "SlDel"): lines.append("%s %d" % (n, e["n"]))
